@@ -17,7 +17,7 @@ def run(ctx):
         L = T.Layer(ctx, fd=fd)
         dele = R.job_subscript(ctx, L)
         R.snapshot(ctx, L)
-        for t, lst in dele.items():
+        for t, lst in (dele or {}).items():
             who = sorted({f.name for f, _ in lst})
             ctx.holds("R-ROLE-WRITERS", "%s %s: deleters outside the job thread = %s" % (L.tag, t, who or "none"))
             if t == "_snd_buffer" and lst:
